@@ -25,7 +25,7 @@ class Game(AsyncMode):
 
     __slots__ = ["_balls_in_play", "player_list", "slam_tilted", "tilted", "ending", "num_players",
                  "_stopping_modes", "_stopping_queue", "_end_ball_event", "_at_least_one_player_event",
-                 "balls_per_game", "max_players"]
+                 "balls_per_game", "max_players", "_player_add_in_progress"]
 
     def __init__(self, *args, **kwargs):
         """Initialize game."""
@@ -42,6 +42,7 @@ class Game(AsyncMode):
         self._stopping_queue = None
         self._end_ball_event = None  # type: asyncio.Event
         self._at_least_one_player_event = None  # type: asyncio.Event
+        self._player_add_in_progress = False
         self.balls_per_game = None
         self.max_players = None
 
@@ -65,6 +66,7 @@ class Game(AsyncMode):
         self._end_ball_event.clear()
         self._at_least_one_player_event = asyncio.Event()
         self._at_least_one_player_event.clear()
+        self._player_add_in_progress = False
         self.balls_per_game = self.machine.config['game']['balls_per_game'].evaluate([])
 
         # Add add player switch handler
@@ -556,6 +558,13 @@ class Game(AsyncMode):
             self.debug_log("Current ball is after Ball 1. Cannot add player.")
             return False
 
+        if self._player_add_in_progress:
+            # the previous player has not been added (and paid for) yet. a second request would be judged on the same
+            # credits
+            self.debug_log("Another player is still being added. Cannot add player yet.")
+            return False
+
+        self._player_add_in_progress = True
         self.machine.events.post_boolean('player_add_request',
                                          callback=self._player_add_request_complete)
         '''event: player_add_request
@@ -573,6 +582,7 @@ class Game(AsyncMode):
         del kwargs
         if ev_result is False:
             self.debug_log("Request to add player has been denied.")
+            self._player_add_in_progress = False
             return False
 
         new_player_number = len(self.player_list) + 1
@@ -628,6 +638,9 @@ class Game(AsyncMode):
         num: The number of the player that was just added. (e.g. Player 1 will
         have *num=1*, Player 4 will have *num=4*, etc.)
         '''
+
+        # player_added is queued: handlers (e.g. credits) see it before any later player_add_request
+        self._player_add_in_progress = False
 
         # set player if there is none
         if not self.player:
